@@ -469,7 +469,13 @@ class _Gen:
         return k
 
     def i_array(self, ctx, body, length=None):
-        name = _uniq_name(self.draw, FIELD_NAMES, ctx["names"], "f")
+        reuse = sorted(n for n in ctx["names"].outer_len if n not in ctx["names"])
+        if length is None and reuse and self.boolean(0.4):
+            # a case member that repeats the name (and literal length) of a member of the enclosing body
+            name = self.pick(reuse)
+            ctx["names"].add(name)
+        else:
+            name = _uniq_name(self.draw, FIELD_NAMES, ctx["names"], "f")
         ins = {"tag": "array", "name": name}
         delimited = ctx["lex"] and self.boolean(0.55)
         same = ctx["names"].outer_len.get(name)
